@@ -23,7 +23,7 @@ POINTS = {
     'gc.unload': ['gc'],
 }
 OTHERS = ['pub:p', 'pub:p,q', 'cons:0:5', 'cons:2:2', 'cons:-2:9', 'get:1', 'get:3', 'get:4', 'get:5', 'del:1', 'del:3', 'del:0,1', 'next',
-          'sync', 'gc']
+          'sync', 'gc', 'stat', 'gett:50', 'gett:100', 'gett:200', 'getk:a', 'getk:d', 'getk:x', 'consk:b:0:5', 'consk:c:-2:2']
 SETUPS = [('100000', 'pub:a,b;pub:c,d'), ('60', 'pub:a,b;pub:c,d'), ('60k', 'pub:a;pub:b;pub:c;pub:d'), ('60', 'pub:a,b,c,d')]
 POST = '-- cons:-2:9 cons:1:9 cons:2:9 cons:3:9 cons:4:9 get:1 get:3 next'
 
@@ -135,6 +135,14 @@ def c08_extra(pid, tier, seed):
             gpaths.append(p)
         with cf.ThreadPoolExecutor(2) as ex:
             list(ex.map(one, gpaths))
+        # the lookups (by time, by key, oldest/newest, Stat) against a publisher and a deleter on small segments
+        qpaths = []
+        for i in range(2):
+            p = os.path.join(d, 'q%02d.txt' % i)
+            open(p, 'w').write('cquerystress %d %d\n' % ((6, 250) if tier == 'quick' else (60, 400)))
+            qpaths.append(p)
+        with cf.ThreadPoolExecutor(2) as ex:
+            list(ex.map(one, qpaths))
         # tailing consumers against a publisher: no gap although nothing is deleted
         ppaths = []
         for i in range(2):
@@ -143,7 +151,7 @@ def c08_extra(pid, tier, seed):
             ppaths.append(p)
         with cf.ThreadPoolExecutor(2) as ex:
             list(ex.map(one, ppaths))
-        paths = paths + spaths + gpaths + ppaths
+        paths = paths + spaths + gpaths + qpaths + ppaths
         # the protocol model on the same placements
         mp = os.path.join(d, 'model-placements.txt')
         open(mp, 'w').write('\n'.join(mlines) + '\n')
@@ -190,7 +198,7 @@ def c08_extra(pid, tier, seed):
                              placements_compared_with_protocol_model=ncmp, of_which_model_outcome_unique=nsingle,
                              free_running_histories=nfree, start_of_life_stress_iterations=4 * stress_iters, histories_linearizable=nlin, placements_with_point_hit=nhit,
                              linearizability_search_timeouts=nto, race_reports=len(races),
-                             rule='placements: every call of a small alphabet (and sampled pairs) inside the windows publish.written, '
+                             rule='placements: every call of a small alphabet - Publish, Consume, Get, Delete, NextOffset, Sync, GC, Stat, GetByTime, GetByKey, ConsumeByKey - (and sampled pairs) inside the windows publish.written, '
                                   'publish.rolled, delete.found/synced/rewritten, consume.indexed, gc.unload of a held call, on 1-4 segment '
                                   'logs; free-running: 2-8 goroutines x 15-60 random calls, rollover 60-400; all under -race; every recorded '
                                   'history must be linearizable w.r.t. the sequential log specification and no call may fail'))
